@@ -355,6 +355,16 @@ def explore(ctx):
         ctx.bound("malformed_alphabet", alphabet)
         ctx.bound("malformed_max_length", maxlen)
         ctx.product("malformed", list(alphabet), gen_malformed)
+        # one foreign character at a time, every code point up to U+024F and a few beyond, in six positions of a name
+        foreign = [chr(i) for i in range(0, 0x250)] + ["\u266d", "\u266f", "\u2028", "\uff23", "\U0001d12a", "%s", "%d", "{0}", "\\"]
+        texts = []
+        for c in foreign:
+            for t in (c, "C" + c, "C#" + c, c + "#", "C" + c + "#", c + "b", "Gb" + c + "b"):
+                if P.is_name(t) or not t:
+                    continue
+                texts.append(t)
+        ctx.bound("malformed_foreign_characters", {"characters": len(foreign), "texts": len(texts)})
+        ctx.serial("malformed", texts)
     if not ctx.only:
         ctx.guard("names checked", ctx.counter("names"), 7 * (2 ** (k + 1) - 1))
         ctx.guard("names mixing sharps and flats", ctx.counter("names_mixing_sharps_and_flats"), 1000)
